@@ -36,6 +36,12 @@ def set_event_laws(before, ev):
     ]
 
 
+def seteq(a, b):
+    """extensional equality of two sets, stated pointwise (its negation then yields a witness element)"""
+    x = z3.Const("x!eq", Val)
+    return z3.ForAll([x], a[x] == b[x])
+
+
 def make_set_self(cx, cls="TraitSet"):
     S = z3.Const("members", SetV)
     V = Validator(cx, "item")
@@ -180,10 +186,10 @@ class SetMutator(Contract):
             if len(evs) > 1:
                 out.append(("post:at-most-one-event", z3.BoolVal(False)))
             elif len(evs) == 0:
-                out.append(("post:event-when-contents-change", S1 == S0))
+                out.append(("post:event-when-contents-change", seteq(S1, S0)))
             else:
-                out.append(("post:event-after-mutation", evs[0].at == S1))
-                out.append(("post:silent-when-nothing-changes", S1 != S0))
+                out.append(("post:event-after-mutation", seteq(evs[0].at, S1)))
+                out.append(("post:silent-when-nothing-changes", z3.Not(seteq(S1, S0))))
                 out += set_event_laws(S0, evs[0])
         else:
             alts = [z3.And(rejected, match(payload.sym))] if payload.sym is not None else []
@@ -191,7 +197,7 @@ class SetMutator(Contract):
                 if rk == "raise":
                     alts.append(z3.And(g, exc_same(payload, rp)))
             out.append(("raise:same-exception-as-set-or-validator", z3.Or(*alts) if alts else z3.BoolVal(False)))
-            out.append(("raise:contents-unchanged", S1 == S0))
+            out.append(("raise:contents-unchanged", seteq(S1, S0)))
             out.append(("raise:no-event", z3.BoolVal(len(evs) == 0)))
         return out
 
@@ -214,7 +220,7 @@ T = z3.BoolVal(True)
 
 
 def lam(f):
-    return z3.Lambda([X], f(X))
+    return mk_lambda(X, f(X))
 
 
 def rejected_in(V, U):
